@@ -4,7 +4,9 @@ import (
 	"encoding/json"
 	"fmt"
 	"os"
+	"regexp"
 	"sort"
+	"strings"
 )
 
 // printManifest writes MANIFEST.json from the property table, so that the
@@ -29,7 +31,7 @@ func printManifest() int {
 			"technique":           p.Technique,
 			"level_claimed": map[string]interface{}{
 				"category":   "other",
-				"text":       p.Explanation + " NOT decided by this check: " + p.NotDecided,
+				"text":       fullExplanation(p) + " NOT decided by this check: " + p.NotDecided,
 				"design_ref": "DESIGN.md §3 (rules " + fmt.Sprint(p.Rules) + "), §4 " + id,
 			},
 			"level_note": "Trusted base: Go type checker and go/ssa construction (x/tools v0.29.0); transactional semantics of bbolt/badger; the frozen tables of DESIGN.md §1/§3. The verdict is about the named structural clauses on every path/site of the current source, not about the behaviour as a whole.",
@@ -68,6 +70,43 @@ func printManifest() int {
 	b, _ := json.MarshalIndent(m, "", " ")
 	os.Stdout.Write(append(b, '\n'))
 	return 0
+}
+
+// fullExplanation is the property's explanation followed by one sentence per rule of its
+// list that the hand-written text does not name (the rule's line of documentation), so that
+// the claim always covers exactly the rules that run.
+func fullExplanation(p *Property) string {
+	reg := registry()
+	out := p.Explanation
+	seen := map[string]bool{}
+	var extra []string
+	for _, rn := range p.Rules {
+		name := rn
+		scope := ""
+		if i := strings.Index(rn, "~"); i >= 0 {
+			name, scope = rn[:i], rn[i+1:]
+		}
+		if seen[name] {
+			continue
+		}
+		seen[name] = true
+		if regexp.MustCompile(`\b` + name + `\b`).MatchString(p.Explanation) {
+			continue
+		}
+		r := reg[name]
+		if r == nil {
+			continue
+		}
+		t := name + ": " + r.Doc
+		if scope != "" {
+			t += " (here only for constructs matching " + scope + ")"
+		}
+		extra = append(extra, t)
+	}
+	if len(extra) > 0 {
+		out += " Further rules serving this property - " + strings.Join(extra, "; ") + "."
+	}
+	return out
 }
 
 func allPropertyIDs() []string {
